@@ -197,6 +197,106 @@ def _run(env):
                      defect_key=None)
     if not ctx.quick: ctx.exhaustive.append('every value 0..255 of KeyFlags/Features/KeyServerPreferences octets; every unknown subpacket type x critical bit')
 
+    # ---- 6: the three RSA algorithm ids (1, and the deprecated 2 / 3) in the signature header: the octet received is the octet hashed ----
+    import hashlib
+    kr = env.key('rsa2048')
+    ralg, rpub, rpriv = env.indep(kr)
+    RP = env.comp['rsa2048']['primary']
+    for ka in (1, 3):
+        kb = bytearray(RP); kb[5] = ka; kb = bytes(kb)
+        rfpr = hashlib.sha1(b'\x99' + len(kb).to_bytes(2, 'big') + kb).digest()
+        ko = outcome(lambda: pgpy.PGPKey.from_blob(S.new_header(6, len(kb)) + kb)[0])
+        if ko[0] != 'ok':
+            ctx.fail('rsa-alg-ids', 'RSA public key with algorithm id %d cannot be loaded' % ka, {'op': 'rsaid', 'keyalg': ka, 'impl': repr(ko)}); continue
+        kk = ko[1]
+        for sa in (1, 2, 3):
+            hashed = S.area([S.subpacket(2, (1600000000 + sa).to_bytes(4, 'big')), S.subpacket(33, b'\x04' + rfpr)])
+            data = S.model_hashdata(d, 4, 0, sa, 8, hashed, ('doc', doc), rfc=True)
+            mp = S.indep_sign(1, rpriv, 8, data)
+            pkt = S.sig_packet(S.sig_body(0, sa, 8, hashed, S.area([S.subpacket(16, rfpr[-8:])]), S.digest(8, data)[:2], mp))
+            case = {'op': 'rsaid', 'keyalg': ka, 'sigalg': sa, 'sig': pkt.hex(), 'key': (S.new_header(6, len(kb)) + kb).hex()}
+            ctx.case('rsa-alg-ids', (ka, sa, 'valid'))
+            so = outcome(lambda: pgpy.PGPSignature.from_blob(pkt))
+            if so[0] != 'ok':
+                ctx.fail('rsa-alg-ids', 'PGPy rejects a signature whose algorithm octet is %d' % sa, dict(case, impl=repr(so))); continue
+            got = outcome(lambda: bytes(so[1].hashdata(doc)))
+            if got != ('ok', data):
+                ctx.fail('rsa-alg-ids', 'hashed header octets differ from the received ones (algorithm octet %d)' % sa, dict(case, impl=repr(got)[:200], want=data.hex()))
+            v = outcome(lambda: bool(kk.verify(doc, so[1])))
+            if v != ('ok', True):
+                ctx.fail('rsa-alg-ids', 'valid RSA signature with algorithm octet %d does not verify under the key (key algorithm %d)' % (sa, ka), dict(case, impl=repr(v)))
+            (tg, bd, _), = S.split_packets(pkt); hdr = len(pkt) - len(bd)
+            for sb in (1, 2, 3):
+                if sb == sa: continue
+                mut = bytearray(pkt); mut[hdr + 2] = sb
+                o = outcome(lambda: bool(kk.verify(doc, pgpy.PGPSignature.from_blob(bytes(mut)))))
+                ctx.case('rsa-alg-ids', (ka, sa, sb))
+                if o == ('ok', True):
+                    ctx.fail('rsa-alg-ids', 'signature still verifies after its algorithm octet changed %d -> %d' % (sa, sb), dict(case, newalg=sb))
+
+    # ---- 7: embedded signatures (primary-key binding inside a subkey binding) read from a certificate: same rule ----
+    P, SBs = comp['primary'], comp['subkeys']
+    subs = list(k.subkeys.values())
+    si = [i for i, sx in enumerate(subs) if int(sx.key_algorithm) == 22][0]
+    skey = subs[si]; SB = SBs[si]
+    salg, spub, spriv = env.indep(skey)
+    sfpr = bytes.fromhex(str(skey.fingerprint)); skeyid = sfpr[-8:]
+    pk = S.split_packets(bytes(pub))
+    assert [x[0] for x in pk[:3]] == [6, 13, 2]
+    prefix = b''.join(x[2] for x in pk[:3])
+    subpkt = [x[2] for x in pk if x[0] == 14][si]
+
+    def load_cert(cert):
+        c, _ = pgpy.PGPKey.from_blob(cert)
+        s2 = list(c.subkeys.values())[0]
+        es = [x for x in s2.__sig__ if int(x.type) == 0x19]
+        return c, s2, es
+
+    for i in range(ctx.n(60, 1500)):
+        eh, desc, classes = gen_area(rng, sfpr, rng.choice([0, 1, 2, 3]), wild=False, enums=enums)
+        edata = S.model_hashdata(d, 4, 0x19, salg, 8, eh, ('subkey', P, SB), rfc=True)
+        emp = S.indep_sign(salg, spriv, 8, edata)
+        ebody = S.sig_body(0x19, salg, 8, eh, S.area([S.subpacket(16, skeyid)]), S.digest(8, edata)[:2], emp)
+        bh = S.area([S.subpacket(2, (1600000000 + i).to_bytes(4, 'big')), S.subpacket(27, b'\x02'), S.subpacket(33, b'\x04' + fpr)])
+        bdata = S.model_hashdata(d, 4, 0x18, alg, 8, bh, ('subkey', P, SB), rfc=True)
+        bmp = S.indep_sign(alg, ipriv, 8, bdata)
+        elf = rng.choice([0, 2])
+        def binding(eb):
+            return S.sig_packet(S.sig_body(0x18, alg, 8, bh, S.area([S.subpacket(16, keyid), S.subpacket(32, eb, lenform=elf)]), S.digest(8, bdata)[:2], bmp))
+        cert = prefix + subpkt + binding(ebody)
+        case = {'op': 'embedded', 'cert': cert.hex(), 'desc': desc}
+        ctx.case('embedded', eh, sample={'hashed': eh.hex()[:100], 'desc': desc})
+        o = outcome(lambda: load_cert(cert))
+        if o[0] != 'ok' or len(o[1][2]) != 1:
+            ctx.fail('embedded', 'certificate with a well-formed embedded primary-key binding is not loaded with that signature', dict(case, impl=repr(o)[:200]),
+                     defect_key='C05/unknown-enum-value-in-hashed-subpacket-rejected' if 'unknown-enum' in classes else None); continue
+        c, s2, (es,) = o[1]
+        got = outcome(lambda: bytes(es.hashdata(s2)))
+        if got != ('ok', edata):
+            ctx.fail('embedded', 'hashed octets of an embedded signature differ from the received region', dict(case, impl=repr(got)[:300], want=edata.hex()[:300])); continue
+        v = outcome(lambda: (bool(c.verify(s2, es)), bool(c.verify(c))))
+        if v != ('ok', (True, True)):
+            ctx.fail('embedded', 'valid embedded signature (made by an independent signer over the received octets) does not verify', dict(case, impl=repr(v))); continue
+        if ebody[1:] not in bytes(c) or ebody[1:] not in bytes(c.pubkey if not c.is_public else c):
+            ctx.fail('embedded', 'embedded signature octets change on re-export', case)
+        import copy as _copy
+        cc = outcome(lambda: load_cert(bytes(_copy.copy(c))))
+        if cc[0] != 'ok' or len(cc[1][2]) != 1 or outcome(lambda: bool(cc[1][0].verify(cc[1][1], cc[1][2][0]))) != ('ok', True):
+            ctx.fail('embedded', 'embedded signature no longer verifies after the certificate was copied and re-exported', case)
+        # flips inside the embedded signature's signed region
+        if i < ctx.n(4, 40):
+            for pos in range(1, 4 + len(eh)):
+                for bit in ([rng.randrange(8)] if ctx.quick else range(8)):
+                    eb2 = bytearray(ebody); eb2[pos] ^= 1 << bit
+                    cert2 = prefix + subpkt + binding(bytes(eb2))
+                    def chk():
+                        c2, s3, es3 = load_cert(cert2)
+                        return any(bool(c2.verify(s3, e)) for e in es3)
+                    o2 = outcome_timed(1.0, chk)
+                    ctx.case('embedded-bitflip', (i, pos, bit))
+                    if o2 == ('ok', True):
+                        ctx.fail('embedded-bitflip', 'embedded signature with a flipped bit in its signed region still verifies', {'op': 'embedded-flip', 'cert': cert2.hex()})
+
 
 def replay(ctx, case):
     env = Env(ctx)
@@ -206,6 +306,21 @@ def replay(ctx, case):
             pgpy = env.pgpy
             pub = env.key('ed25519').pubkey
             doc = b'C05 subject'
+            if case['op'] in ('embedded', 'embedded-flip'):
+                def chk():
+                    c, _ = pgpy.PGPKey.from_blob(bytes.fromhex(case['cert']))
+                    s2 = list(c.subkeys.values())[0]
+                    es = [x for x in s2.__sig__ if int(x.type) == 0x19]
+                    return len(es) == 1 and bool(c.verify(s2, es[0]))
+                o = outcome(chk)
+                return (o == ('ok', True)) if case['op'] == 'embedded-flip' else (o != ('ok', True))
+            if case['op'] == 'rsaid':
+                kk = pgpy.PGPKey.from_blob(bytes.fromhex(case['key']))[0]
+                pkt = bytearray(bytes.fromhex(case['sig']))
+                if 'newalg' in case:
+                    (tg, bd, _), = S.split_packets(bytes(pkt)); pkt[len(pkt) - len(bd) + 2] = case['newalg']
+                    return outcome(lambda: bool(kk.verify(doc, pgpy.PGPSignature.from_blob(bytes(pkt))))) == ('ok', True)
+                return outcome(lambda: bool(kk.verify(doc, pgpy.PGPSignature.from_blob(bytes(pkt))))) != ('ok', True)
             pkt = bytearray(bytes.fromhex(case['sig']))
             if case['op'] == 'flip':
                 pkt[case['pos']] ^= 1 << case['bit']
